@@ -46,7 +46,21 @@ func (dec *Decoder) ReadBytes() []byte {
 }
 
 func (dec *Decoder) readUint8Slice(et reflect.Type) []byte {
-	count := dec.ReadInt()
+	count := dec.ReadCount()
+	if n := dec.prealloc(count); n < count {
+		// the count could not be checked against the input: grow as elements arrive
+		slice := make([]byte, 0, n)
+		dec.AddReference(nil)
+		index := dec.refer.Last()
+		for i := 0; i < count && dec.Error == nil; i++ {
+			var b byte
+			dec.decodeUint8(et, dec.NextByte(), &b)
+			slice = append(slice, b)
+		}
+		dec.Skip()
+		dec.SetReference(index, slice)
+		return slice
+	}
 	slice := make([]byte, count)
 	dec.AddReference(slice)
 	for i := 0; i < count; i++ {
